@@ -59,6 +59,40 @@ pub fn run_sdk_script(text: &str) -> Result<BTreeMap<String, String>, String> {
     }
 }
 
+/// `run_sdk_script` in a child process of its own: a script that kills the process (a stack that
+/// overflows) or does not end gives an error here instead of taking the check down with it.
+pub fn run_sdk_script_isolated(text: &str) -> Result<BTreeMap<String, String>, String> {
+    use std::io::Write;
+    use std::process::{Command, Stdio};
+    let exe = std::env::current_exe().map_err(|e| e.to_string())?;
+    let mut child = Command::new(exe)
+        .arg("script-case")
+        .arg("-")
+        .stdin(Stdio::piped())
+        .stdout(Stdio::piped())
+        .stderr(Stdio::null())
+        .env_remove("RUST_BACKTRACE")
+        .spawn()
+        .map_err(|e| format!("cannot start a child process: {}", e))?;
+    {
+        let mut stdin = child.stdin.take().ok_or("no stdin")?;
+        // a child that dies early closes the pipe: the exit status below tells
+        let _ = stdin.write_all(text.as_bytes());
+    }
+    let out = child.wait_with_output().map_err(|e| e.to_string())?;
+    if !out.status.success() {
+        return Err(format!("the run killed its process ({})", out.status));
+    }
+    let v: serde_json::Value = serde_json::from_slice(&out.stdout).map_err(|e| format!("unreadable answer of the child process: {}", e))?;
+    if let Some(e) = v.get("err").and_then(|e| e.as_str()) {
+        return Err(e.to_string());
+    }
+    match v.get("ok").and_then(|o| o.as_object()) {
+        Some(o) => Ok(o.iter().map(|(k, v)| (k.clone(), v.as_str().unwrap_or("").to_string())).collect()),
+        None => Err("unreadable answer of the child process".to_string()),
+    }
+}
+
 /// `scale_case` for the properties that run inside the supervisor process (no worker): the verdict
 /// goes straight into the totals.
 pub fn scale_case_totals(t: &mut crate::engine::Totals, name: &str, text: &str, expect: &[(&str, Option<String>)]) {
@@ -68,7 +102,7 @@ pub fn scale_case_totals(t: &mut crate::engine::Totals, name: &str, text: &str, 
     t.traces += 1;
     t.nontrivial += 1;
     let family = name.split(' ').next().unwrap_or("").to_string();
-    let verdict: Result<(), (String, String)> = match run_sdk_script(text) {
+    let verdict: Result<(), (String, String)> = match run_sdk_script_isolated(text) {
         Err(e) => Err((format!("scale:{}:run-failed", family), format!("{}: {}", name, e))),
         Ok(vars) => {
             let mut bad = None;
@@ -98,6 +132,15 @@ pub fn scale_case(w: &mut crate::engine::Worker, name: &str, text: &str, expect:
     if !w.take() {
         return;
     }
+    // a script of these families may kill the process (a nested interpreter that does not come back):
+    // the case is announced first, so that the supervisor pins the death to it and reports it
+    let was_risky = w.risky;
+    w.risky = true;
+    scale_case_inner(w, name, text, expect);
+    w.risky = was_risky;
+}
+
+fn scale_case_inner(w: &mut crate::engine::Worker, name: &str, text: &str, expect: &[(&str, Option<String>)]) {
     let cj = serde_json::json!({"kind": "scale", "name": name, "script": text});
     w.begin(|| cj.clone());
     w.add_transitions(1);
@@ -579,4 +622,42 @@ pub fn wide_chars() -> Vec<char> {
     chars.sort();
     chars.dedup();
     chars
+}
+
+/// Sizes defined by a rule: p - 1, p, p + 1 for every power of two from 16 and every power of ten from
+/// 100, up to `cap` - where buffers, counters and "generous" limits have their edges.
+pub fn threshold_sizes(cap: u64) -> Vec<u64> {
+    let mut v = vec![];
+    let mut p = 16u64;
+    while p <= cap {
+        v.extend([p - 1, p, p + 1]);
+        p *= 2;
+    }
+    let mut p = 100u64;
+    while p <= cap {
+        v.extend([p - 1, p, p + 1]);
+        p *= 10;
+    }
+    v.retain(|x| *x <= cap + 1);
+    v.sort();
+    v.dedup();
+    v
+}
+
+/// `base` plus the threshold sizes up to `cap`, sorted, without duplicates.
+pub fn with_thresholds<T: TryFrom<u64> + Into<u64> + Copy + Ord>(base: Vec<T>, cap: u64) -> Vec<T> {
+    let mut v: Vec<u64> = base.iter().map(|x| (*x).into()).collect();
+    v.extend(threshold_sizes(cap));
+    v.sort();
+    v.dedup();
+    v.into_iter().filter_map(|x| T::try_from(x).ok()).collect()
+}
+
+/// the same for usize sizes
+pub fn with_thresholds_usize(base: Vec<usize>, cap: u64) -> Vec<usize> {
+    let mut v: Vec<u64> = base.iter().map(|x| *x as u64).collect();
+    v.extend(threshold_sizes(cap));
+    v.sort();
+    v.dedup();
+    v.into_iter().map(|x| x as usize).collect()
 }
